@@ -124,7 +124,7 @@ static void run(long i, vh_rng *r)
     fsg_model_t *fsg = NULL;
     long naccept = 0;
     double p_eps = vh_unit(r) * 0.6;
-    int tiny_probs = 0, npad = 0, n_core;
+    int tiny_probs = 0, npad = 0, n_core, remap = 0, nfan = 0;
 
     int null_dense = vh_chance(r, 0.25), perm[16];
     if (null_dense) {
@@ -146,6 +146,8 @@ static void run(long i, vh_rng *r)
     n_core = n_state;
     if (i % 9 == 4) {
         n_state = n_core + (vh_chance(r, 0.5) ? vh_range(r, 30, 400) : vh_range(r, 400, 3000));
+        /* every third sparse grammar scatters its connected states over a large range of state numbers */
+        if (i % 27 == 13) { remap = 1; n_state = vh_chance(r, 0.5) ? vh_range(r, 13600, 40000) : vh_range(r, 300, 9000); }
         if (vh_chance(r, 0.3)) final = n_core + (int)vh_below(r, (uint32_t)(n_state - n_core));
         if (vh_chance(r, 0.1)) start = n_core + (int)vh_below(r, (uint32_t)(n_state - n_core));
         vh_count("sparse_grammars", 1); vh_max("max_states", n_state);
@@ -184,6 +186,40 @@ static void run(long i, vh_rng *r)
         for (k = 0; k < npad; ++k) { garc *a = &g[narcs + k]; a->from = (int)vh_below(r, (uint32_t)n_core); a->to = (int)vh_below(r, (uint32_t)n_core); a->sym = NSYM + k; a->p = rand_prob(r); if (a->p < 5e-7) a->p = 0.25; vfsa_add(&gen, a->from, a->to, vfsa_label(&gen, vh_path("pad%02d", k)), (int64_t)plog(a->p, lw)); }
         vh_count("grammars_with_large_vocabulary", 1);
     }
+    if (remap) {
+        /* the connected states get state numbers anywhere in the range, most of them multiples of 256 (numbers with zero bytes) */
+        int map[16], q, t2, guard2 = 0;
+        for (q = 0; q < n_core; ++q) {
+            int ok2;
+            do {
+                map[q] = (n_state > 512 && vh_chance(r, 0.7)) ? 256 * (int)vh_below(r, (uint32_t)(n_state / 256)) : (int)vh_below(r, (uint32_t)n_state);
+                ok2 = !(start >= n_core && map[q] == start) && !(final >= n_core && map[q] == final);
+                for (t2 = 0; t2 < q; ++t2) if (map[t2] == map[q]) ok2 = 0;
+            } while (!ok2 && ++guard2 < 10000);
+        }
+        for (k = 0; k < narcs + npad; ++k) { g[k].from = map[g[k].from]; g[k].to = map[g[k].to]; }
+        if (start < n_core) start = map[start];
+        if (final < n_core) final = map[final];
+        if (n_state >= 13600 && vh_chance(r, 0.7)) {
+            /* a hub: one connected state with arcs (null or word) to many further states all over the range, each of which leads
+             * back into the connected part; the per-state arc tables then hold many destinations */
+            int F = vh_range(r, 40, 120), hub = map[vh_below(r, (uint32_t)n_core)], f2;
+            g = (garc *)realloc(g, sizeof(garc) * (size_t)(narcs + npad + 2 * F + 1));
+            for (f2 = 0; f2 < F; ++f2) {
+                garc *a = &g[narcs + npad + nfan]; int dest = vh_chance(r, 0.85) ? 256 * (int)vh_below(r, (uint32_t)(n_state / 256)) : (int)vh_below(r, (uint32_t)n_state);
+                if (dest == hub) continue;
+                a->from = hub; a->to = dest; a->sym = vh_chance(r, 0.5) ? -1 : (int)vh_below(r, NSYM); a->p = VH_PICK(r, ((double[]){ 0.9, 0.5, 0.1, 0.01, 0.3, 1.0 })); ++nfan;
+                a = &g[narcs + npad + nfan]; a->from = dest; a->to = map[vh_below(r, (uint32_t)n_core)]; a->sym = vh_chance(r, 0.3) ? -1 : (int)vh_below(r, NSYM); a->p = VH_PICK(r, ((double[]){ 0.9, 0.5, 0.1, 0.3, 1.0 }));
+                if (a->to == a->from) continue;
+                ++nfan;
+            }
+            vh_count("grammars_with_a_hub_state", 1); vh_max("max_hub_fan_out", F);
+        }
+        vfsa_free(&gen); vfsa_init(&gen, n_state, start, final);
+        for (k = 0; k < NSYM; ++k) gsyms[k] = vfsa_label(&gen, alpha[k]);
+        for (k = 0; k < narcs + npad + nfan; ++k) vfsa_add(&gen, g[k].from, g[k].to, g[k].sym < 0 ? VF_EPS : g[k].sym >= NSYM ? vfsa_label(&gen, vh_path("pad%02d", g[k].sym - NSYM)) : gsyms[g[k].sym], (int64_t)plog(g[k].p, lw));
+        vh_count("grammars_with_scattered_state_numbers", 1);
+    }
     vfsa_table(&gen, NSYM, gsyms, MAXLEN, 1, truth);
     for (k = 0; k < tsz; ++k) if (truth[k] > VF_NEG) ++naccept;
     vh_desc("%d states start=%d final=%d, %d arcs (eps share %.2f), lw=%.1f, alphabet {%s,%s,%s}, built from %s; %ld of %ld strings accepted",
@@ -195,7 +231,7 @@ static void run(long i, vh_rng *r)
         vh_sb_init(&sb);
         vh_sb_printf(&sb, "# generated\nFSG_BEGIN g%ld\n%s %d\n%s %d\n\n%s %d\n", i, vh_chance(r, 0.5) ? "NUM_STATES" : "N", n_state,
                      vh_chance(r, 0.5) ? "START_STATE" : "S", start, vh_chance(r, 0.5) ? "FINAL_STATE" : "F", final);
-        for (k = 0; k < narcs + npad; ++k) {
+        for (k = 0; k < narcs + npad + nfan; ++k) {
             if (vh_chance(r, 0.1)) vh_sb_printf(&sb, "# comment line\n");
             vh_sb_printf(&sb, "%s%s %d %d %.17g %s\n", vh_chance(r, 0.2) ? "  " : "", vh_chance(r, 0.5) ? "TRANSITION" : "T", g[k].from, g[k].to, g[k].p, g[k].sym < 0 ? "" : g[k].sym >= NSYM ? vh_path("pad%02d", g[k].sym - NSYM) : alpha[g[k].sym]);
         }
@@ -209,7 +245,7 @@ static void run(long i, vh_rng *r)
         /* the text carries the probabilities with 17 significant digits: same truth */
         vfsa_free(&gen); vfsa_init(&gen, n_state, start, final);
         for (k = 0; k < NSYM; ++k) gsyms[k] = vfsa_label(&gen, alpha[k]);
-        for (k = 0; k < narcs + npad; ++k) vfsa_add(&gen, g[k].from, g[k].to, g[k].sym < 0 ? VF_EPS : g[k].sym >= NSYM ? vfsa_label(&gen, vh_path("pad%02d", g[k].sym - NSYM)) : gsyms[g[k].sym], (int64_t)plog(g[k].p, lw));
+        for (k = 0; k < narcs + npad + nfan; ++k) vfsa_add(&gen, g[k].from, g[k].to, g[k].sym < 0 ? VF_EPS : g[k].sym >= NSYM ? vfsa_label(&gen, vh_path("pad%02d", g[k].sym - NSYM)) : gsyms[g[k].sym], (int64_t)plog(g[k].p, lw));
         vfsa_table(&gen, NSYM, gsyms, MAXLEN, 1, truth);
         vh_count("built_from_text", 1);
     } else {
@@ -219,7 +255,7 @@ static void run(long i, vh_rng *r)
         fsg->start_state = start; fsg->final_state = final;
         for (k = 0; k < NSYM; ++k) wid[k] = fsg_model_word_add(fsg, alpha[k]);
         vh_ctx("fsg_model_trans_add");
-        for (k = 0; k < narcs + npad; ++k) {
+        for (k = 0; k < narcs + npad + nfan; ++k) {
             if (g[k].sym < 0) fsg_model_null_trans_add(fsg, g[k].from, g[k].to, plog(g[k].p, lw));
             else fsg_model_trans_add(fsg, g[k].from, g[k].to, plog(g[k].p, lw), g[k].sym >= NSYM ? fsg_model_word_add(fsg, vh_path("pad%02d", g[k].sym - NSYM)) : wid[g[k].sym]);
         }
